@@ -1528,7 +1528,7 @@ pub fn run_c18(args: &Args) -> i32 {
       }
     }
     sig_structural(&cx, args, &mut acc);
-    let nsig = args.scale(40_000, 1_200_000);
+    let nsig = args.scale(100_000, 1_500_000);
     let seed = args.seed;
     let only = crate::replay_index(args);
     let sacc = par_cases(args.threads(), nsig, |i, acc| {
@@ -1544,7 +1544,7 @@ pub fn run_c18(args: &Args) -> i32 {
   // ---- decision leg
   let now = std::time::SystemTime::now().duration_since(std::time::UNIX_EPOCH).map(|d| d.as_secs() as i64).unwrap_or(0);
   rep.extra.insert("now_unix".into(), json!(now));
-  let ndec = args.scale(12_000, 400_000);
+  let ndec = args.scale(40_000, 500_000);
   let seed = args.seed;
   let only = crate::replay_index(args);
   let dacc = par_cases(args.threads(), ndec, |i, acc| {
